@@ -47,6 +47,25 @@ def generate(rng, tier, shard, nshards):
                 for fn in ("determinize", "push", "min_det"):
                     yield event("wop", {"sr": srn, "A": D, "sigma": sig, "L": L, "fn": fn, "style": style},
                                      site=f"WFSA.{fn}", feat="cycle", timeout=5)
+            if i % 3 == 1:
+                # cyclic, deterministic and PROPER (initial weight one, every state's arcs + final weight sum to one): the
+                # total weight is one, so the pushed start subset is itself a normalised subset and is reached again
+                n = rng.choice([2, 3])
+                parts = {1: [[[1, 2]], [[1, 4]]], 2: [[[1, 2], [1, 4]], [[1, 4], [1, 4]], [[1, 4], [1, 2]]]}
+                D = {"n": n, "I": [[0, [1, 1]]], "F": [], "arcs": []}
+                for q in range(n):
+                    toks = rng.choice([["a"], ["a", "b"], ["b"]]) if q else ["a", "b"]
+                    ws = rng.choice(parts[len(toks)])
+                    for t, w in zip(toks, ws):
+                        D["arcs"].append([q, t, 0 if (t == "a" and q == n - 1) else rng.randrange(n), w])
+                    from fractions import Fraction
+                    rest = 1 - sum(Fraction(*w) for w in ws)
+                    D["F"].append([q, [rest.numerator, rest.denominator]])
+                # (no min_det here: the REVERSE of a cyclic deterministic machine need not be determinisable, and the
+                # property speaks of determinisation only where it terminates)
+                for fn in ("determinize", "push"):
+                    yield event("wop", {"sr": srn, "A": D, "sigma": sig, "L": L, "fn": fn, "style": style},
+                                     site=f"WFSA.{fn}", feat="proper-cycle", timeout=5)
         else:
             A = aops.rand_wfsa(rng, srn, nS=rng.choice([3, 4]), narcs=rng.choice([4, 6, 8]))
             feat = aops.afeat(A)
